@@ -380,7 +380,8 @@ RACE_KINDS = ["arrival", "arrival", "poweroff", "poweroff-peer", "poweron-peer",
 
 
 def sched_scenarios(rng, n):
-    """(setup ops, race op text, info) — bursts are queued only on transceiver `j`; `k` is the peer (the recipient)"""
+    """(setup ops, race op text, info) — bursts are queued only on transceiver `j`; `k` is the peer (the recipient);
+    in some scenarios a third transceiver (index 2) listens on the same frequency as `k`: two recipients per burst"""
     H = worldgen.H
     out = []
     for _ in range(n):
@@ -389,9 +390,15 @@ def sched_scenarios(rng, n):
         ver = rng.choice([0, 0, 1])
         kver = 1 if rng.random() < 0.5 else 0
         kind = rng.choice(RACE_KINDS)
+        third = rng.random() < 0.3
         fn0 = rng.choice([rng.randrange(1, H - 3), H - 1, H - 2, 0, 101, 102])
         ops = []
-        for i, (rx, tx) in ((0, (900000, 945000)), (1, (945000, 900000))):
+        tune = [(0, (900000, 945000)), (1, (945000, 900000))]
+        if third:
+            tune.append((2, (tune[k][1][0], 880000)))
+            if rng.random() < 0.5:
+                ops.append(_cmd(2, "CMD SETFORMAT 1\0"))
+        for i, (rx, tx) in tune:
             ops += [_cmd(i, "CMD RXTUNE %d\0" % rx), _cmd(i, "CMD TXTUNE %d\0" % tx)]
             if i == j and ver:
                 ops.append(_cmd(i, "CMD SETFORMAT 1\0"))
@@ -399,6 +406,7 @@ def sched_scenarios(rng, n):
                 ops.append(_cmd(i, "CMD SETFORMAT 1\0"))
             if not (i == k and kind == "poweron-peer"):
                 ops.append(_cmd(i, "CMD POWERON\0"))
+        p = rng.choice([k, 2]) if third else k          # the peer the racing operation addresses
         ops.append("J %d" % fn0)
         fns = []
         ds = rng.sample([0, 0, -1, -2, 1, 2, 3], rng.randint(1, 4))
@@ -415,7 +423,7 @@ def sched_scenarios(rng, n):
         elif kind == "poweroff":
             race, info = _cmd(j, "CMD POWEROFF\0"), {"kind": kind}
         elif kind == "poweroff-peer":
-            race, info = _cmd(k, "CMD POWEROFF\0"), {"kind": kind}
+            race, info = _cmd(p, "CMD POWEROFF\0"), {"kind": kind}
         elif kind == "poweron-peer":
             race, info = _cmd(k, "CMD POWERON\0"), {"kind": kind}
         elif kind == "setformat":
@@ -423,12 +431,12 @@ def sched_scenarios(rng, n):
         elif kind == "setformat-peer":
             race, info = _cmd(k, "CMD SETFORMAT %d\0" % (1 - kver)), {"kind": kind}
         elif kind == "retune-peer":
-            race, info = _cmd(k, "CMD RXTUNE %d\0" % rng.choice([890000, 945000, 900000])), {"kind": kind}
+            race, info = _cmd(p, "CMD RXTUNE %d\0" % rng.choice([890000, 945000, 900000])), {"kind": kind}
         elif kind == "mute":
-            race, info = _cmd(rng.choice([j, k]), "CMD RFMUTE 1\0"), {"kind": kind}
+            race, info = _cmd(rng.choice([j, p]), "CMD RFMUTE 1\0"), {"kind": kind}
         else:
-            race, info = _cmd(k, "CMD FAKE_DROP 2\0"), {"kind": kind}
-        info.update({"j": j, "fn0": fn0, "queued": fns, "ver": ver})
+            race, info = _cmd(p, "CMD FAKE_DROP 2\0"), {"kind": kind}
+        info.update({"j": j, "fn0": fn0, "queued": fns, "ver": ver, "head": "sched.run 0 %s | " % ("c:7700/0" if third else "-")})
         out.append((ops, race, info))
     return out
 
@@ -454,9 +462,6 @@ def _parse_race(obs):
     return fwd, calls, stale, excs, points, dg
 
 
-SCHED_HEAD = "sched.run 0 - | "
-
-
 def sched_canon(a):
     """canonical form of a schedule-harness answer for the comparison with the interleaving model: the routing trace
     (call:/send: items, used by the oracles only) is dropped; everything else is a property-level observable (datagrams
@@ -477,8 +482,8 @@ def sched_run(run, n):
     if n in cache:
         return cache[n]
     scen = sched_scenarios(random.Random(run.seed * 31 + 7), n)
-    probe = [SCHED_HEAD + " ; ".join(ops + ["R 9999 " + race]) for ops, race, _ in scen]
-    before = [SCHED_HEAD + " ; ".join(ops + [race, "T"]) for ops, race, _ in scen]
+    probe = [info["head"] + " ; ".join(ops + ["R 9999 " + race]) for ops, race, info in scen]
+    before = [info["head"] + " ; ".join(ops + [race, "T"]) for ops, race, info in scen]
     ans = vf.run_lines([vf.PY, SCHED_HARNESS, vf.TRX], probe + before)
     ans_probe, ans_before = ans[:len(probe)], ans[len(probe):]
     lines, meta = [], []
@@ -487,7 +492,7 @@ def sched_run(run, n):
             raise vf.HarnessError("schedule harness: %s" % a[:300])
         pts = _parse_race(a.split(" | ")[0].split(" ; ")[-1])[4]
         for k in range(pts + 1):
-            lines.append(SCHED_HEAD + " ; ".join(ops + ["R %d %s" % (k, race)]))
+            lines.append(info["head"] + " ; ".join(ops + ["R %d %s" % (k, race)]))
             meta.append((info, k, pts, si))
     impl = vf.run_lines([vf.PY, SCHED_HARNESS, vf.TRX], lines)
     for a in impl + ans_before:
@@ -516,7 +521,7 @@ def _sched_outcome(a, nlast):
     return (tuple(sorted(items)), stale, parts[-1])
 
 
-def sched_correspond(run, corr, n_quick=260, n_thorough=5000):
+def sched_correspond(run, corr, n_quick=260, n_thorough=4000):
     """differential tie of the interleaving model: every forced schedule that is run on the real objects is also
     computed by `Sched.exec` (driver verb sched.run) and compared"""
     n = run.scale(n_quick, n_thorough)
@@ -596,7 +601,7 @@ def _sched_judge(info, a):
     return w
 
 
-def sched_oracle(run, corr, deep, n_quick=260, n_thorough=5000):
+def sched_oracle(run, corr, deep, n_quick=260, n_thorough=4000):
     """every interleaving position of ONE socket-thread operation against ONE tick, on the real objects:
     no exception in either thread; bursts are forwarded only in their own frame and at most once;
     without a power-off of the sender nothing vanishes (accepted = forwarded + stale + still queued);
